@@ -37,11 +37,16 @@ class IO:
 
     # ------------------------------------------------------------------ helpers
     @staticmethod
-    def exportable(sim) -> bool:
+    def exportable(sim, fmt=None) -> bool:
         tr = sim.tracks
         if tr.graph.number_of_nodes() == 0:
             return False
         feats = tr.annotators.features
+        if fmt == "internal":
+            # the internal format also has to round-trip a registry in which managed
+            # features are switched off; only what the comparison itself reads is required
+            pk = tr.features.position_key
+            return tr.features.tracklet_key in feats and (tr.segmentation is None or pk in feats)
         if tr.features.tracklet_key not in feats or tr.features.lineage_key not in feats:
             return False
         pk = tr.features.position_key
@@ -191,7 +196,7 @@ class IO:
         return self._export_like(sim, op, kind="export")
 
     def _export_like(self, sim, op, kind):
-        if not self.exportable(sim):
+        if not self.exportable(sim, op.get("fmt")):
             return None
         tr = sim.tracks
         fmt = op["fmt"]
@@ -301,7 +306,7 @@ class IO:
         return out
 
     def op_reimport(self, sim, op):
-        if not self.exportable(sim):
+        if not self.exportable(sim, op.get("fmt")):
             return None
         tr = sim.tracks
         fmt = op["fmt"]
@@ -392,7 +397,7 @@ class IO:
 
     def op_restart(self, sim, op):
         """Crash-restart: acknowledged save, drop the object, rebuild from the files only."""
-        if not self.exportable(sim) or sim.restarts >= 2:
+        if not self.exportable(sim, op.get("fmt")) or sim.restarts >= 2:
             return None
         fmt = op["fmt"]
         tr = sim.tracks
